@@ -88,9 +88,15 @@ def main():
             result["suite_ok"] = ok
             result["suite_wall_s"] = round(dt)
         result["checks"] = {}
+        # run the checks from a snapshot of /verif's HEAD, so that edits made in /verif meanwhile do not disturb them
+        snap = tmp / "verif"
+        snap.mkdir()
+        subprocess.check_call(f"git -C {ROOT} archive HEAD | tar -x -C {snap}", shell=True)
+        os.symlink(ROOT / ".deps", snap / ".deps")
+        result["verif_head"] = subprocess.check_output(["git", "-C", str(ROOT), "rev-parse", "--short", "HEAD"], text=True).strip()
         for c in checks:
             cenv = dict(os.environ, VERIF_REPO_SRC=f"{wt}/src", VERIF_EVIDENCE_DIR=str(tmp / "ev"), VERIF_OUT_DIR=str(tmp / "out"))
-            rcc, outc, dt = sh(f"{ROOT}/check {c} --tier {tier}", cwd=ROOT, env=cenv, timeout=7200)
+            rcc, outc, dt = sh(f"{snap}/check {c} --tier {tier}", cwd=snap, env=cenv, timeout=7200)
             lines = [l for l in outc.splitlines() if l.startswith(("violation[", "VIOLATION", "OK ", "HARNESS", "regression replay"))]
             result["checks"][c] = {"rc": rcc, "wall_s": round(dt), "tier": tier, "lines": [l[:400] for l in lines[:8]]}
         detected = any(v["rc"] == 1 for v in result["checks"].values())
